@@ -136,6 +136,19 @@ fn fri_committed_trees<F: RichField + Extendable<D>, C: GenericConfig<D, F = F>,
         .coeffs
         .truncate(coeffs.len() >> fri_params.config.rate_bits);
 
+    #[cfg(feature = "verif_hooks")]
+    if let Some(c) = crate::plonk::verif_knobs::final_poly_vanishing_multiple() {
+        // `values` live on `shift * H_n`: add `c * (X^n - shift^n)` if the padded length has room.
+        let n = values.len();
+        if final_poly_coeff_len.is_some_and(|len| n < len) {
+            let c: F::Extension = F::from_canonical_u64(c).into();
+            let s_n: F::Extension = shift.exp_u64(n as u64).into();
+            coeffs.coeffs.resize(n + 1, F::Extension::ZERO);
+            coeffs.coeffs[n] += c;
+            coeffs.coeffs[0] -= c * s_n;
+        }
+    }
+
     challenger.observe_extension_elements(&coeffs.coeffs);
     // When verifying this proof in a circuit with a different final polynomial length,
     // the challenger needs to observe the full length of the final polynomial.
